@@ -129,7 +129,7 @@ NoLog == [a \in Alerts |-> [c \in Cfgs |-> NONE]]
 
 \* parameters of the model itself: exact, no tolerance
 P == [gw |-> GW, gi |-> GI, ri |-> RI, pt |-> PT, st |-> ST, mint |-> MinT,
-      slack |-> 0, rslack |-> 0, dupmin |-> [a \in Alerts |-> MaxDelay], dupmax |-> RI, repmax |-> RI, late |-> 0, rltol |-> 0]
+      slack |-> 0, rslack |-> 0, dupmin |-> [a \in Alerts |-> MaxDelay], dupmax |-> RI, repmax |-> RI, late |-> 0, rltol |-> 0, inflight |-> 0]
 
 -----------------------------------------------------------------------------
 (* the wiring of app.setup *)
@@ -480,10 +480,19 @@ AtLeastOnceP(p) ==
 \* C08: healthy cluster => the same group state is not delivered twice within repeat_interval.
 \* Deliveries closer than dupmin[a] are the race the peer timeout exists for (the first delivery
 \* may still be in flight, its log entry on the way); no verdict when that is not below the peer timeout
+\* Two deliveries of one group state by different instances.  The later instance can only know of
+\* the earlier delivery once that delivery has COMPLETED (the log is written after success) and the
+\* entry has been gossiped: a pair closer than p.dupmin is the race the peer timeout cannot close.  The
+\* group timers of the instances are not aligned: in a REPEAT round (the pair's first delivery is not
+\* the first one of that state) the later-positioned instance may have started its wait before the
+\* earlier-positioned one was due at all, so its head start is shorter than the peer timeout; there the
+\* delivery time in flight (p.inflight) is added to the threshold.
+FirstOfState(k) == ~\E j \in 1 .. k - 1 : sent[j].a = sent[k].a /\ sent[j].c = sent[k].c
+DupMinAt(p, pr) == p.dupmin[sent[pr[2]].a] + (IF FirstOfState(pr[1]) THEN 0 ELSE p.inflight)
 DupPairs(p) == {pr \in (1 .. Len(sent)) \X (1 .. Len(sent)) :
                   /\ pr[1] < pr[2] /\ sent[pr[1]].a = sent[pr[2]].a /\ sent[pr[1]].c = sent[pr[2]].c
                   /\ p.dupmin[sent[pr[2]].a] < p.pt
-                  /\ sent[pr[2]].t - sent[pr[1]].t > p.dupmin[sent[pr[2]].a] /\ sent[pr[2]].t - sent[pr[1]].t <= p.dupmax}
+                  /\ sent[pr[2]].t - sent[pr[1]].t > DupMinAt(p, pr) /\ sent[pr[2]].t - sent[pr[1]].t <= p.dupmax}
 NoDuplicateP(p) == (healthy /\ Cardinality(Inst) > 1) => DupPairs(p) = {}
 
 \* C11: a silence acknowledged before a restart whose snapshot had to hold it keeps muting
